@@ -118,6 +118,22 @@ Examples ==
   /\ ProcessVerdict(<<"w","e","b">>) = "accept" /\ ProcessVerdict(<<"a","/">>) = "reject"
   /\ LayerVerdict(Build) = "reject" /\ LayerVerdict(<<"b","u","i","l","d","x">>) = "accept" /\ LayerVerdict(<<>>) = "reject"
 
+\* numbers the implementation can hold: at most u64::MAX, decided on the digit string
+DigitVal(c) == CASE c = "0" -> 0 [] c = "1" -> 1 [] c = "2" -> 2 [] c = "3" -> 3 [] c = "4" -> 4 [] c = "5" -> 5
+                 [] c = "6" -> 6 [] c = "7" -> 7 [] c = "8" -> 8 [] OTHER -> 9
+U64Max == <<"1","8","4","4","6","7","4","4","0","7","3","7","0","9","5","5","1","6","1","5">>
+StripZeros(s) == LET nz == {i \in DOMAIN s : s[i] # "0"} IN
+                 IF nz = {} THEN <<"0">> ELSE SubSeq(s, CHOOSE i \in nz : \A j \in nz : i <= j, Len(s))
+LexLeq(a, b) == \* equal lengths
+  LET d == {i \in DOMAIN a : a[i] # b[i]} IN
+  d = {} \/ LET i == CHOOSE j \in d : \A k \in d : j <= k IN DigitVal(a[i]) < DigitVal(b[i])
+FitsU64(s) == LET t == StripZeros(s) IN Len(t) < 20 \/ (Len(t) = 20 /\ LexLeq(t, U64Max))
+\* beyond u64 the CNB spec is silent (rejecting is fine) - but what is accepted must be the number written
+Fits(s) == \A i \in DOMAIN Split(s) : ~IsDigits(Split(s)[i]) \/ FitsU64(Split(s)[i])
+ApiNormal(s) == LET parts == Split(s)
+                    n1 == StripZeros(parts[1])
+                IN  IF Len(parts) = 1 THEN n1 \o <<".", "0">> ELSE n1 \o <<".">> \o StripZeros(parts[2])
+
 \* direction B: random longer strings parsed by the real code; TLC evaluates the recognisers on each
 TraceRec == ndJsonDeserialize(IOEnv.TRACE)
 Compatible(verdict, accepted) == verdict = "dontcare" \/ ((verdict = "accept") = accepted)
@@ -127,7 +143,10 @@ TraceCheck ==
     \/ IF r.kind = "name"
        THEN /\ Compatible(IdVerdict(r.s), r.id) /\ Compatible(ProcessVerdict(r.s), r.process)
             /\ Compatible(KeyVerdict(r.s), r.key) /\ Compatible(LayerVerdict(r.s), r.layer)
-       ELSE /\ Compatible(VersionVerdict(r.s), r.version) /\ Compatible(ApiVerdict(r.s), r.api)
+       ELSE /\ Compatible(IF Fits(r.s) THEN VersionVerdict(r.s) ELSE "dontcare", r.version)
+            /\ Compatible(IF Fits(r.s) THEN ApiVerdict(r.s) ELSE "dontcare", r.api)
+            /\ (r.version /\ VersionVerdict(r.s) = "accept") => r.version_display = r.s
+            /\ (r.api /\ ApiVerdict(r.s) = "accept") => r.api_display = ApiNormal(r.s)
     \/ (PrintT(<<"TRACE_MISMATCH", i>>) /\ FALSE)
 
 ASSUME Examples
